@@ -33,7 +33,14 @@ func init() {
 			v := ex.tt.Var(name, 64)
 			ex.inputs = append(ex.inputs, v)
 			ex.addPC(ex.tt.Eq(v, ex.tt.BV(uint64(k), 64)))
-			ex.model = nil
+			if ex.model != nil {
+				m := &Model{vals: make(map[string]uint64, len(ex.model.vals)+1)}
+				for kk, vv := range ex.model.vals {
+					m.vals[kk] = vv
+				}
+				m.vals[name] = uint64(k)
+				ex.model = m
+			}
 			return ex.intTerm(k)
 		},
 		"vAssume": func(ex *Exec, fn *ssa.Function, a []Value) Value {
